@@ -14,3 +14,23 @@ claim("C01", "other",
       "Clause-limited: decode totality of all 1792 encodings (no reachable panic), flag lookup tables equal arithmetic closed forms, DD/FD in front of non-HL opcodes is a timing-only prefix (sibling comparison of traces and final states), undefined ED = NOP, MEMPTR provenance for LD (rr|nn),A / OUT (n),A.",
       "Not decided: arithmetic results and affected-flag values of ALU/rotate/block instructions (value-level) unless the exact-semantics clause (D6) is armed. Trusted: rustc MIR, mirfacts, zxwalk, term equivalence by truth table over extracted closed forms.",
       "DESIGN.md §3 C01")
+claim("C04", "other",
+      "constant propagation through the spec builders + extraction of the delay function as a piecewise closed form tabulated against the documented formula + path-sensitive effect traces of the controller's bus methods",
+      "Machine constants, the delay function over every T of the frame, the contended-bank tables, the guard/pairing of the delay in wait_mreq/wait_no_mreq, and the four port wait patterns of read_io/write_io are decided for both machines.",
+      "Not decided: per-instruction totals at every beam position (composition of C03 traces with the delay table). The statement's '(T-T0) mod 8' is read per picture line (the ULA fetch cycle restarts each line; identical on the 48K, differs on the 128K where 228 is not a multiple of 8).",
+      "DESIGN.md §3 C04")
+claim("C05", "other",
+      "constant propagation + tabulated summary of int_active + mod-ref (writers/readers/callers) + path post-conditions of wait_internal",
+      "Frame length and INT window constants; int_active == (T mod frame < 32) for every clock of two frames; the frame clock is only advanced by wait_internal and reduced by exactly one frame length in new_frame (overrun carried); frame counter discipline.",
+      "Not decided: exactly one interrupt per frame (depends on the program).",
+      "DESIGN.md §3 C05")
+claim("C06", "proof",
+      "path-sensitive abstract interpretation (guards, bit provenance of the paging value, address arithmetic by term equivalence) + mod-ref / who-may-call over the resolved call graph",
+      "write_7ffd guard and bit fields, initial maps and constructor model choice, ZXMemory::read/write address arithmetic and ROM write protection, and the frozen writer/caller sets of the memory map, ROM vector and paging latch.",
+      "Trusted: rustc MIR, mirfacts, zxwalk, finite-domain term equivalence. The 48K machine ignoring paging writes is decided by C07 (machine guard in write_io) plus the constructor's paging_enabled = false.",
+      "DESIGN.md §3 C06")
+claim("C07", "proof",
+      "path-sensitive abstract interpretation of read_io/write_io with device leaves as effects; the extracted decision list is tabulated over all 65536 addresses x 12 configurations x 2 machines and compared with the statement's decode cubes (three-valued oracle)",
+      "Every address that selects exactly one device reaches that device and no other (reads and writes, both machines, mouse/joystick/extender on or off); extender discipline; ULA read row AND / EAR bit and ULA write bit fields.",
+      "Addresses where the statement does not single out one device (several cubes overlap, or the mouse outside xxDF-style addresses) are not compared. The floating-bus byte value is not decided.",
+      "DESIGN.md §3 C07, Appendix A.2")
